@@ -8,14 +8,14 @@ Require Import ExtrOcamlBasic.
 From SwiftMT Require Import Base.Bytes Dispatch.Model Dispatch.Facts Dispatch.Instance.
 From SwiftMT Require Import Dates.DateTime Num.Amount Classify.Model Headers.Hdr12 Headers.Hdr35 Headers.B3 Headers.Blocks Legacy.Block4Map Legacy.Tracker.
 From SwiftMT Require Import Family.Model Family.Instance Rules.Msg Rules.All Fmt.Model Fmt.Instance.
-From SwiftMT Require Import Base.StrOps Engine.Layout Engine.Tokens Engine.Extract Engine.Instance Engine.Factor.
+From SwiftMT Require Import Base.StrOps Engine.Layout Engine.Tokens Engine.Extract Engine.Instance Engine.Factor Engine.Regex Engine.AbsInstance gen.Specs.
 
 Extraction "swiftmt_model.ml"
   Dispatch.Model.parse_typed Dispatch.Model.parse_auto Dispatch.Model.plugin_parse
   Dispatch.Model.plugin_validate Dispatch.Model.publish Dispatch.Model.wrapper_validate
   Dispatch.Instance.gen_tables Dispatch.Facts.supported
   Engine.Extract.brun Engine.Tokens.trun Engine.Instance.layout_of Engine.Extract.extract_field_content
-  Engine.Extract.b_detect Engine.Extract.b_complete Engine.Factor.is_canonical
+  Engine.Extract.b_detect Engine.Extract.b_complete Engine.Factor.is_canonical Engine.Regex.matchb gen.Specs.specs Engine.AbsInstance.inclusion_open Engine.AbsInstance.check_type
   Dates.DateTime.date_of Dates.DateTime.parse_time_hhmm Dates.DateTime.offset_ok Dates.DateTime.format_yymmdd Dates.DateTime.format_hhmm
   Num.Amount.parse_amount Num.Amount.parse_amount_dec Num.Amount.to_bits Num.Amount.format_amount Num.Amount.to_dec
   Classify.Model.has_reject Classify.Model.has_return Classify.Model.is_cover Classify.Model.plugin_method
